@@ -125,6 +125,7 @@ type scenario struct {
 	tl     *tasklane.TaskLane
 	tlp    atomic.Pointer[tasklane.TaskLane]
 	cancel context.CancelFunc
+	ctx    context.Context // the lane's context: PushTask must report exactly ctx.Err()
 	tasks  []*task
 	tmu    sync.Mutex
 	quiet  atomic.Bool // no per-step events (maximal real concurrency); only a summary is recorded
@@ -205,14 +206,14 @@ func (s *scenario) doCancel(why string) {
 	}
 }
 
-func resTag(err error) string {
+func (s *scenario) resTag(err error) string {
 	switch {
 	case err == nil:
 		return "nil"
 	case errors.Is(err, tasklane.ErrTimeout):
 		return "timeout"
-	case errors.Is(err, context.Canceled), errors.Is(err, context.DeadlineExceeded):
-		return "ctx"
+	case err == s.ctx.Err() && (err == context.Canceled || err == context.DeadlineExceeded):
+		return "ctx" // "the context's error": what ctx.Err() reports, not a cancellation cause
 	}
 	return "other:" + err.Error()
 }
@@ -222,7 +223,7 @@ func (s *scenario) push(p int, t *task, lane int) error {
 	s.inPush.Add(1)
 	b.Emit(ev{E: "push.begin", P: p, T: t.id, Lane: lane + 1})
 	err := s.tl.PushTask(t, lane)
-	b.Emit(ev{E: "push.end", P: p, T: t.id, Res: resTag(err)})
+	b.Emit(ev{E: "push.end", P: p, T: t.id, Res: s.resTag(err)})
 	s.inPush.Add(-1)
 	return err
 }
@@ -294,10 +295,19 @@ type result struct {
 	Twice []int  `json:"twice"` // tasks whose Start() ran more than once (counted by the task object itself)
 }
 
+var scenarioSeq atomic.Int32
+
 func newScenario(kind string, n, q int, parent context.Context, setup func(*scenario)) *scenario {
 	s := &scenario{kind: kind, n: n, q: q, log: evlog.New()}
-	ctx, cancel := context.WithCancel(parent)
-	s.cancel = cancel
+	var ctx context.Context
+	if scenarioSeq.Add(1)%2 == 0 {
+		// a context that carries a cancellation cause (errgroup-style): ctx.Err() is still context.Canceled
+		c, cancelCause := context.WithCancelCause(parent)
+		ctx, s.cancel = c, func() { cancelCause(errors.New("shutdown requested by operator")) }
+	} else {
+		ctx, s.cancel = context.WithCancel(parent)
+	}
+	s.ctx = ctx
 	if setup != nil {
 		setup(s) // everything the hook reads is written before the lane's goroutines exist
 	}
@@ -372,7 +382,11 @@ func runRandom(rng *rand.Rand) result {
 	deadline := rng.Intn(5) == 0
 	var dcancel context.CancelFunc = func() {}
 	if deadline {
-		parent, dcancel = context.WithTimeout(parent, time.Duration(500+rng.Intn(3000))*time.Microsecond)
+		if rng.Intn(2) == 0 {
+			parent, dcancel = context.WithTimeout(parent, time.Duration(500+rng.Intn(3000))*time.Microsecond)
+		} else {
+			parent, dcancel = context.WithTimeoutCause(parent, time.Duration(500+rng.Intn(3000))*time.Microsecond, errors.New("budget exhausted"))
+		}
 	}
 	defer dcancel()
 	ys := rng.Int63n(1<<30) + 1
@@ -738,6 +752,7 @@ func main() {
 				w.Put(runAtRest(rng, n, q, n, false)) // every worker pinned and every lane filled to the brim: the upper bound of PendingTask
 			}
 		}
+		w.Put(runAtRest(rng, 40, rep%2, 40, false)) // a wide lane (more than 32 workers), everything full
 		for _, n := range []int{2, 3} {
 			for stuck := 0; stuck < n; stuck++ {
 				w.Put(runAllBusy(rng, n, rep%2, stuck, rng.Perm(n)))
